@@ -22,6 +22,30 @@ F18 = "F18:particle-on-upper-box-face-dropped-from-tree"
 _rebound = None
 _lib = None
 _clib = None
+ROOT_RULE = ["wrap"]      # how particle.c / tree.c bring a root-box index into range (read off the source)
+
+
+def read_root_rule(d):
+    """mini-translator: `(floor(..)+N)%N` (pinned source) or clamp to [0,N-1] (fixes/F18.diff)?  Returns None if
+    neither form is recognised in both places that compute a root-box index."""
+    import re
+    ps = open(os.path.join(d, "src", "particle.c")).read()
+    ts = open(os.path.join(d, "src", "tree.c")).read()
+    m = re.search(r"int reb_get_rootbox_for_particle\(.*?\n}", ps, re.S)
+    m2 = re.search(r"if \(parent == NULL\)\{ // The new node is a root(.*?)\}else\{", ts, re.S)
+    if not m or not m2:
+        return None
+    a, b = m.group(0), m2.group(1)
+    wrap_a = len(re.findall(r"\(int\)floor\(\(pt\.[xyz] \+ r->boxsize\.[xyz]/2\.\)/r->root_size\)\+r->N_root_[xyz]\)%r->N_root_[xyz]", a)) == 3
+    wrap_b = len(re.findall(r"\(\(int\)floor\(\(p\.[xyz] \+ r->boxsize\.[xyz]/2\.\)/r->root_size\)\)%r->N_root_[xyz]", b)) == 3
+    cl = r"[ijk] = [ijk]<0 \? 0 : \([ijk]>=r->N_root_[xyz] \? r->N_root_[xyz]-1 : [ijk]\);"
+    clamp_a = len(re.findall(cl, a)) == 3 and "%" not in a
+    clamp_b = len(re.findall(cl, b)) == 3 and "%" not in b
+    if wrap_a and wrap_b:
+        return "wrap"
+    if clamp_a and clamp_b:
+        return "clamp"
+    return None
 
 
 def setup(d):
@@ -324,7 +348,7 @@ def dump_str(cells):
 
 
 def model_line(cfg, parts, grav):
-    toks = ["tree", cfg["rs"], str(cfg["nx"]), str(cfg["ny"]), str(cfg["nz"]), "1" if grav else "0",
+    toks = ["tree", ROOT_RULE[0], cfg["rs"], str(cfg["nx"]), str(cfg["ny"]), str(cfg["nz"]), "1" if grav else "0",
             str(FUEL_TREE), str(len(parts))]
     for p in parts:
         toks += [d2h(p["x"]), d2h(p["y"]), d2h(p["z"]), d2h(p["m"])]
@@ -429,8 +453,9 @@ def run_sim(cfg, out, model_budget):
         flagged = [i for i, p in enumerate(after) if not p["y"] == p["y"]]
         if flagged:
             k = F17 if (cfg["resolve"] == "merge" and cfg["collision"] in ("tree", "linetree")) else "flagged-particle-at-step-boundary"
-            out.viol.append((k, "after step %d particle(s) %s flagged for removal (y=NaN) are still in the particle array (N=%d)"
-                             % (step, flagged[:5], len(after)), dict(cfg=cfg, step=step)))
+            if not any(v[0] == k for v in out.viol):
+                out.viol.append((k, "after step %d particle(s) %s flagged for removal (y=NaN) are still in the particle array (N=%d)"
+                                 % (step, flagged[:5], len(after)), dict(cfg=cfg, step=step)))
             out.inc("f17_observed")
         live = [p for p in after if p["y"] == p["y"]]
         hs = [p["h"] for p in after]
@@ -485,7 +510,7 @@ def run_sim(cfg, out, model_budget):
                 evaluate_tree(cfg, sim, out, "after step %d + tree update" % step, want, step)
                 if want:
                     model_budget[0] -= 1
-        if out.viol:
+        if any(v[0] != F17 for v in out.viol):
             break
         if sim.N == 0:
             break
@@ -740,12 +765,19 @@ def run_jobs(c, jobs, par=4, timeout=120):
 def run(c):
     d = build()
     setup(d)
+    rule = read_root_rule(d)
+    c.cov["root_box_index_rule_in_source"] = rule
+    if rule is None:
+        c.corr_break("the root-box index computation in particle.c:reb_get_rootbox_for_particle / tree.c (new root node) is "
+                     "neither of the two forms the model knows (modulo wrap, clamp)")
+    else:
+        ROOT_RULE[0] = rule
     ok = c.prove(["RV.Props.C15"])
     exe = lean_exe("drv_c15")
     T = c.thorough
-    n_fresh = 1500 if T else 150
-    n_bnd = 2500 if T else 260
-    n_sim = 2400 if T else 170
+    n_fresh = 6000 if T else 500
+    n_bnd = 9000 if T else 800
+    n_sim = 9000 if T else 600
     c.cov["rule"] = (
         "random boxes (root size round or arbitrary, 1-6 root boxes per axis), boundaries open/periodic/shear, tree gravity and/or "
         "tree/line-tree collisions (hard sphere or merge), N 1..600, positions uniform / clustered to 1e-9 of a root box / on dyadic cell faces / "
@@ -792,68 +824,124 @@ def run(c):
         if len(cfg["parts"]) > 150 and not T:
             cfg["steps"] = min(cfg["steps"], 15)
         jobs.append(dict(kind="sim", cfg=cfg, model_budget=3))
-    c.log("running %d jobs on the real code (forked workers)" % len(jobs))
-    results = run_jobs(c, jobs, par=8)
-    lines, expect, meta = [], [], []
-    totals = {}
-    depth_max = 0
-    for job, res in zip(jobs, results):
-        if res is None or res.get("notes", {}).get("exception"):
-            raise Infra("worker failed: %s" % (res or {}).get("notes", {}).get("exception"))
-        if res.get("crash") is not None or res.get("hang"):
-            what = "the real code %s on a generated %s case" % ("crashed (signal %s)" % res.get("crash") if res.get("crash") is not None else "did not return within the time limit", job["kind"])
-            cf = job["cfg"]
-            f18 = cf.get("face") and (job["kind"] == "boundary" or any_f18(cf))
-            c.violation(F18 if f18 else ("crash" if res.get("crash") is not None else "hang"), what, job)
-            continue
-        for k, v in res["counts"].items():
-            totals[k] = totals.get(k, 0) + v
-        depth_max = max(depth_max, res["notes"].get("depth", 0))
-        for key, n in res["evals"]:
-            c.count(tuple(key), nontrivial=n >= 2)
-        for key, what, rep in res["viol"]:
-            c.violation(key, what, rep)
-        for l, e, m in res["lines"]:
-            lines.append(l); expect.append(e); meta.append(m)
-        if len(c.cov["samples"]) < 4 and job["kind"] == "sim":
-            cf = job["cfg"]
-            c.sample(dict(kind="sim", boundary=cf["boundary"], gravity=cf["gravity"], collision=cf["collision"], resolve=cf["resolve"],
-                          roots=[cf["nx"], cf["ny"], cf["nz"]], N=len(cf["parts"]), steps=cf["steps"], counts=res["counts"]))
-    # extra model-only lines: fmod emulation and single-coordinate wrap
-    rng = c.rng.fork()
-    for i in range(2000 if T else 300):
-        a = rng.normal() * 10 ** rng.uniform(-3, 6)
-        b = rng.choice([1.0, 2.0, 0.3, rng.uniform(0.01, 50.0), -rng.uniform(0.01, 50.0)])
-        lines.append("fmod %s %s" % (d2h(a), d2h(b))); expect.append("ok " + d2h(math.fmod(a, b))); meta.append(dict(where="fmod", exact=True))
-    c.log("running %d model lines through drv_c15" % len(lines))
+    # interleave the three kinds so that every batch exercises all of them
+    order = list(range(len(jobs)))
+    c.rng.fork().shuffle(order)
+    jobs = [jobs[i] for i in order]
+    c.log("running %d jobs on the real code (forked workers), model comparison per batch" % len(jobs))
+    st = dict(nd=0, nbit=0, ties=0, first=None, byw={}, nlines=0, totals={}, depth=0)
+    BATCH = 600
+    for b0 in range(0, len(jobs), BATCH):
+        batch = jobs[b0:b0 + BATCH]
+        results = run_jobs(c, batch, par=8)
+        lines, expect, meta = [], [], []
+        for job, res in zip(batch, results):
+            if res is None or res.get("notes", {}).get("exception"):
+                raise Infra("worker failed: %s" % (res or {}).get("notes", {}).get("exception"))
+            if res.get("crash") is not None or res.get("hang"):
+                what = "the real code %s on a generated %s case" % ("crashed (signal %s)" % res.get("crash") if res.get("crash") is not None else "did not return within the time limit", job["kind"])
+                cf = job["cfg"]
+                f18 = cf.get("face") and (job["kind"] == "boundary" or any_f18(cf))
+                c.violation(F18 if f18 else ("crash" if res.get("crash") is not None else "hang"), what, job)
+                continue
+            for k, v in res["counts"].items():
+                st["totals"][k] = st["totals"].get(k, 0) + v
+            st["depth"] = max(st["depth"], res["notes"].get("depth", 0))
+            ne = max(1, res["counts"].get("tree_evaluations", 0) + res["counts"].get("boundary_calls", 0) + res["counts"].get("steps", 0))
+            for key, n in res["evals"]:
+                c.count(tuple(key), nontrivial=n >= 2, n=ne)
+            for key, what, rep in res["viol"]:
+                c.violation(key, what, rep)
+            for l, e, m in res["lines"]:
+                lines.append(l); expect.append(e); meta.append(m)
+            if len(c.cov["samples"]) < 4 and job["kind"] == "sim" and res["counts"].get("steps", 0) > 5:
+                cf = job["cfg"]
+                c.sample(dict(kind="sim", boundary=cf["boundary"], gravity=cf["gravity"], collision=cf["collision"], resolve=cf["resolve"],
+                              roots=[cf["nx"], cf["ny"], cf["nz"]], N=len(cf["parts"]), steps=cf["steps"], counts=res["counts"]))
+        if b0 == 0:
+            # model-only lines: the exact fmod emulation used by the shear offsets vs libm
+            rng = c.rng.fork()
+            for i in range(2000 if T else 300):
+                a = rng.normal() * 10 ** rng.uniform(-3, 6)
+                b = rng.choice([1.0, 2.0, 0.3, rng.uniform(0.01, 50.0), -rng.uniform(0.01, 50.0)])
+                lines.append("fmod %s %s" % (d2h(a), d2h(b))); expect.append("ok " + d2h(math.fmod(a, b))); meta.append(dict(where="fmod", exact=True))
+        compare_batch(c, exe, lines, expect, meta, st)
+        if c.violations and len(c.violations) > 40:
+            break
+    c.cov["model_lines_compared"] = st["nlines"]
+    c.cov["model_lines_by_kind"] = st["byw"]
+    c.cov["disagreements"] = st["nd"]
+    c.cov["bitwise_mismatches_within_tolerance"] = st["nbit"]
+    c.cov["shape_differences_explained_by_particle_on_cell_face"] = st["ties"]
+    c.cov["measured"] = st["totals"]
+    c.cov["max_tree_depth_fresh"] = st["depth"]
+    if st["nd"]:
+        c.corr_break("%d of %d model/implementation lines differ; first: %s" % (st["nd"], st["nlines"], st["first"]["meta"]["where"]), st["first"])
+
+
+def compare_batch(c, exe, lines, expect, meta, st):
+    if not lines:
+        return
     got = run_driver(exe, lines, timeout=1500)
-    nd = 0
-    ties = 0
-    first = None
-    byw = {}
+    st["nlines"] += len(lines)
     if len(got) != len(lines):
-        c.corr_break("driver returned %d lines for %d ops" % (len(got), len(lines)))
-    else:
-        for g, e, m, l in zip(got, expect, meta, lines):
-            byw[m["where"].split(" + ")[0][:40]] = byw.get(m["where"].split(" + ")[0][:40], 0) + 1
-            if g.strip() != e.strip():
-                if m.get("tie"):
-                    ties += 1
-                    continue
-                nd += 1
-                if first is None:
-                    gt, et = g.split(), e.split()
-                    pos = next((i for i, (a, b) in enumerate(zip(gt, et)) if a != b), min(len(gt), len(et)))
-                    first = dict(meta=m, first_difference_at_token=pos, model=" ".join(gt[max(0, pos - 6):pos + 8]),
-                                 impl=" ".join(et[max(0, pos - 6):pos + 8]), op_line=l[:3000])
-    c.cov["model_lines_compared"] = len(lines)
-    c.cov["model_lines_by_kind"] = byw
-    c.cov["disagreements"] = nd
-    c.cov["shape_differences_explained_by_particle_on_cell_face"] = ties
-    c.cov["measured"] = totals
-    c.cov["max_tree_depth_fresh"] = depth_max
-    if nd:
-        c.corr_break("%d of %d model/implementation lines differ; first: %s" % (nd, len(lines), first["meta"]["where"]), first)
+        st["nd"] += 1
+        if st["first"] is None:
+            st["first"] = dict(meta=dict(where="driver returned %d lines for %d ops" % (len(got), len(lines))))
+        return
+    for g, e, m, l in zip(got, expect, meta, lines):
+        w = m["where"].split(" + ")[0]
+        w = "after a step" if w.startswith("after step") else w[:44]
+        st["byw"][w] = st["byw"].get(w, 0) + 1
+        if g.strip() != e.strip():
+            if m.get("tie"):
+                st["ties"] += 1
+                continue
+            if close_lines(g, e):
+                st["nbit"] += 1        # same integers (shape, indices, counters), doubles equal to rounding error
+                continue
+            st["nd"] += 1
+            if st["first"] is None:
+                gt, et = g.split(), e.split()
+                pos = next((i for i, (a, b) in enumerate(zip(gt, et)) if a != b), min(len(gt), len(et)))
+                st["first"] = dict(meta=m, first_difference_at_token=pos, model=" ".join(gt[max(0, pos - 6):pos + 8]),
+                                   impl=" ".join(et[max(0, pos - 6):pos + 8]), op_line=l[:3000])
+
+
+HEX16 = None
+
+
+def close_lines(g, e):
+    """tolerance policy: a harmless re-association must not fire, a wrong bound/index/sign/constant must.
+    Integer tokens (shape, particle indices, counters, survivor order) must agree exactly; 16-hex-digit doubles
+    must agree to 256 ulp of the largest double on the line."""
+    gt, et = g.split(), e.split()
+    if len(gt) != len(et):
+        return False
+    vals = []
+    pairs = []
+    for a, b in zip(gt, et):
+        ha = len(a) == 16 or a == "nan"
+        hb = len(b) == 16 or b == "nan"
+        if ha != hb:
+            return False
+        if not ha:
+            if a != b:
+                return False
+            continue
+        try:
+            x, y = h2d(a), h2d(b)
+        except ValueError:
+            return False
+        pairs.append((x, y))
+        vals += [abs(x), abs(y)]
+    scale = max([v for v in vals if v == v and v != float("inf")] + [0.0])
+    for x, y in pairs:
+        if (x != x) != (y != y):
+            return False
+        if x == x and not abs(x - y) <= 256 * 2.3e-16 * scale:
+            return False
+    return True
 
 
 def any_f18(cfg):
